@@ -4,6 +4,7 @@ package gbn
 
 import (
 	"context"
+	"sync"
 	"time"
 )
 
@@ -11,6 +12,7 @@ import (
 // (in place) each of its first `budget` packets once `armed`; later packets
 // are delivered reliably. Latency is `lat` of virtual time per packet.
 type vLink struct {
+	mu     sync.Mutex // the transport functions are called from both loops and Close
 	name   string
 	ch     chan []byte
 	armed  bool
@@ -19,6 +21,8 @@ type vLink struct {
 	sent   int
 	// blackhole: drop everything
 	dead bool
+	dups int
+	faulty int
 	// ghost log of everything put on the wire (for monitors)
 	wire [][]byte
 }
@@ -33,6 +37,8 @@ func (l *vLink) send(ctx context.Context, b []byte) error {
 		return ctx.Err()
 	default:
 	}
+	l.mu.Lock()
+	defer l.mu.Unlock()
 	l.sent++
 	l.wire = append(l.wire, b)
 	if l.dead {
@@ -45,8 +51,11 @@ func (l *vLink) send(ctx context.Context, b []byte) error {
 	}
 	switch fate {
 	case 1: // drop
+		l.faulty++
 		return nil
 	case 2: // duplicate in place
+		l.dups++
+		l.faulty++
 		l.ch <- b
 	}
 	l.ch <- b
